@@ -6,9 +6,24 @@ def genCase : G (List String) := do
   let d ← genDatagram
   pure ["call sf " ++ hexOf (encode d), "expect res ok", "expect sf " ++ (expected d).toD.render, "expect rawjson ok"]
 
+/-- a record of an unknown type whose declared length is not a multiple of four (an agent that does not pad), followed by an
+    extended switch record: the unknown record is skipped by exactly its declared length, the record behind it is decoded from
+    the byte after it. No specification-side expectation (the datagram is not XDR): the model's decoder, which is the translated
+    Go decoder (Proofs/C04Trans2.lean), says what comes out. -/
+def genUnaligned : G (List String) := do
+  let ulen ← pick [1, 2, 3, 5, 6, 7, 9, 13]
+  let udata ← bytesOf ulen
+  let fmt ← pick [9999, 1005, 2000, 4096 + 7]
+  let sw : Bytes := words [1001, 16, ← w32, ← w32, ← w32, ← w32]
+  let recs : Bytes := words [fmt, ulen] ++ udata ++ sw
+  let body : Bytes := words [← w32, 7, ← w32, ← w32, ← w32, ← w32, ← w32, 2] ++ recs
+  let d : Bytes := words [5, 1] ++ [10, 0, 0, 1] ++ words [0, 1, 2, 1] ++ words [1, body.length] ++ body
+  pure ["call sf " ++ hexOf d]
+
 def gen (n : Nat) : G (List String) := do
   let mut out : List String := []
-  for _ in [0:n] do
+  for i in [0:n] do
     out := out ++ (← genCase)
+    if i % 25 = 24 then out := out ++ (← genUnaligned)
   pure out
 end Goflow.Gen.C04
